@@ -23,6 +23,9 @@ struct STrig(u32);
 /// (kind, seq, sender, trigger target)
 #[derive(Resource, Default)]
 struct Log(Vec<(&'static str, u32, Option<Entity>, Option<Entity>)>);
+/// What game logic placed in `Update` sees (one frame after a `PostUpdate` re-emission).
+#[derive(Resource, Default)]
+struct UpdateLog(Vec<(&'static str, u32)>);
 
 fn mk(dedicated: bool, auth: AuthMethod) -> App {
     let mut app = App::new();
@@ -36,6 +39,22 @@ fn mk(dedicated: bool, auth: AuthMethod) -> App {
     }
     app.insert_resource(TimeUpdateStrategy::ManualDuration(Duration::from_millis(10)))
         .init_resource::<Log>()
+        .init_resource::<UpdateLog>()
+        .add_systems(
+            Update,
+            (
+                |mut r: EventReader<FromClient<CEv>>, mut l: ResMut<UpdateLog>| {
+                    for e in r.read() {
+                        l.0.push(("CEv", e.event.0));
+                    }
+                },
+                |mut r: EventReader<SEv>, mut l: ResMut<UpdateLog>| {
+                    for e in r.read() {
+                        l.0.push(("SEv", e.0));
+                    }
+                },
+            ),
+        )
         .add_client_event::<CEv>(Channel::Ordered)
         .add_client_trigger::<CTrig>(Channel::Ordered)
         .add_server_event::<SEv>(Channel::Ordered)
@@ -77,6 +96,8 @@ struct Exp {
     kind: &'static str,
     local: u32,
     remote: u32,
+    /// observations by readers placed in `Update`
+    local_update: u32,
     /// exactly one local observation is promised
     must_local: bool,
     /// exactly one remote send is promised
@@ -122,6 +143,8 @@ fn run_case(seed: u64) -> Case {
             match op {
                 0 if !dedicated => {
                     let next = match (client_st, rng.below(3)) {
+                        // backends may report Connected directly (the test helper and the example backend do)
+                        (St::Disconnected, 0) => St::Connected,
                         (St::Disconnected, _) => St::Connecting,
                         (St::Connecting, 0) => St::Disconnected,
                         (St::Connecting, _) => St::Connected,
@@ -215,16 +238,16 @@ fn run_case(seed: u64) -> Case {
                     for (kind, s, target) in pending.drain(..) {
                         let e = match st {
                             // a target that the server does not know cannot be mapped: such a trigger may be withheld
-                            St::Connected => Exp { kind, local: 0, remote: 0, must_local: false, must_remote: target.is_none(), no_local: false, target },
-                            St::Disconnected => Exp { kind, local: 0, remote: 0, must_local: true, must_remote: false, no_local: false, target },
-                            St::Connecting => Exp { kind, local: 0, remote: 0, must_local: false, must_remote: false, no_local: false, target },
+                            St::Connected => Exp { kind, local: 0, remote: 0, local_update: 0, must_local: false, must_remote: target.is_none(), no_local: false, target },
+                            St::Disconnected => Exp { kind, local: 0, remote: 0, local_update: 0, must_local: true, must_remote: false, no_local: false, target },
+                            St::Connecting => Exp { kind, local: 0, remote: 0, local_update: 0, must_local: false, must_remote: false, no_local: false, target },
                         };
                         expect.insert(s, e);
                     }
                     for (kind, s, local, target) in pending_s.drain(..) {
                         // an app without the client-side plugins is only promised "not twice"
                         let must_local = local && !dedicated && st == St::Disconnected;
-                        expect.insert(s, Exp { kind, local: 0, remote: 0, must_local, must_remote: false, no_local: !local, target });
+                        expect.insert(s, Exp { kind, local: 0, remote: 0, local_update: 0, must_local, must_remote: false, no_local: !local, target });
                     }
                     in_update = true;
                     app.update();
@@ -271,6 +294,15 @@ fn run_case(seed: u64) -> Case {
                     if !running && !sent.is_empty() {
                         case.errs.push(format!("server put {} message(s) on the network while stopped", sent.len()));
                     }
+                    let urecs = std::mem::take(&mut app.world_mut().resource_mut::<UpdateLog>().0);
+                    for (kind, s) in urecs {
+                        if let Some(e) = expect.get_mut(&s) {
+                            e.local_update += 1;
+                            if e.local_update > 1 {
+                                case.errs.push(format!("{kind} seq {s} observed {} times by a reader in Update", e.local_update));
+                            }
+                        }
+                    }
                     let recs = std::mem::take(&mut app.world_mut().resource_mut::<Log>().0);
                     for (kind, s, sender, target) in recs {
                         case.checks += 1;
@@ -302,6 +334,9 @@ fn run_case(seed: u64) -> Case {
             case.checks += 1;
             if e.must_local && e.local != 1 {
                 case.errs.push(format!("{} seq {s}: the app acted as server/singleplayer at its processing frame, expected exactly one local observation, got {}", e.kind, e.local));
+            }
+            if e.must_local && (e.kind == "CEv" || e.kind == "SEv") && e.local == 1 && e.local_update != 1 {
+                case.errs.push(format!("{} seq {s}: handled locally, but game logic reading events in Update observed it {} times instead of once", e.kind, e.local_update));
             }
             if e.must_remote && e.remote != 1 {
                 case.errs.push(format!("{} seq {s}: the app was a connected client at its processing frame, expected exactly one send to the server, got {}", e.kind, e.remote));
